@@ -20,8 +20,11 @@ RULE = ("(a) every command with <=K arguments over an alphabet of 58 argument le
 UNQ = ["a", "a1_", "-Dx=y", "a;b", "a\;b", "a\\ b", "\\#", "\\(", "\\\"", "\\\\", "\\t\\n\\r", "${v}", "${v}/x", "$ENV{H}",
        "@v@", "<t>", "$<g:e>", "a$b", "[x]", "x[1]", "]]", "[", "a=b", "ü",
        # characters that Python's str.splitlines()/isspace() treat as separators but CMake as ordinary text
-       "a\x0cb", "a\u2028b", "a\x85b", "a\x0bb", "a\xa0b", "*values", "x**2", "out[", "a|b+c?", "^x$"]
-QUO = ['"\n#[[[ usage\n#]]\n"', '"x\x0cy\u2029z"', '""', '"a b"', '"a#b"', '"a;b"', '"(x)"', '"[[x]]"', '"\\"q\\""', '"\\(x\\)"', '"l1\nl2"', '"c\\\nd"', '"ü✓"']
+       "a\x0cb", "a\u2028b", "a\x85b", "a\x0bb", "a\xa0b", "*values", "x**2", "out[", "a|b+c?", "^x$",
+       # characters for which str.isdigit()/isnumeric() are true but int() fails or means something else
+       "\u00b2", "\u2460", "\u0663", "12", "007", "1e3", "-1", "+1", "0x1f", "\uff11", "\u00bd", "True", "None", "nan"]
+NUMLIKE = ["\u00b2", "\u2460", "\u0663", "12", "007", "1e3", "-1", "+1", "0x1f", "\uff11", "\u00bd", "True", "None", "nan"]
+QUO = ['"\u00b2"', '"\u2460\u2461"', '"12"', '"\n#[[[ usage\n#]]\n"', '"x\x0cy\u2029z"', '""', '"a b"', '"a#b"', '"a;b"', '"(x)"', '"[[x]]"', '"\\"q\\""', '"\\(x\\)"', '"l1\nl2"', '"c\\\nd"', '"ü✓"']
 BRA = ["[[\n#[[[ usage\n]]", "[=[\n]=]", "[[\n]]", "[[a]]", "[[a;b]]", "[[a(b]]", '[[ "x ]]', "[=[a]]b]=]", "[==[\nx\n]==]", "[[#c]]"]
 PAR = ["()", "(a)", "(a (b))", "((a) b)", "(a (b c))", "((a AND (b OR c)) OR NOT (d))"]
 LEX = UNQ + QUO + BRA + PAR
@@ -189,6 +192,26 @@ def processor_files():
                                         ("in a class, before a definition", "cpp_class(C)\n{}\nfunction(\"${{m}}\" self x)\nendfunction()\ncpp_end_class()\n"),
                                         ("in a function body", "function(outer)\n{}\nendfunction()\n")):
                         out.append((f"{'documented' if doc else 'undocumented'} {sp}({args}) {label}", wrap.format(cmd)))
+    return out
+
+
+DOC_SHAPES = ["#[[[ Brief text\n#]]", "#[[[\n#]]", "#[[[\n\n#]]", "#[[[ one line #]]", "#[[[\n#\n#]]", "#[[[\n#\n#\n#]]",
+              "#[[[\n  #]]", "#[[[ @brief x\n  # indented\n  #]]", "#[[[\n# text\n\n# after a blank source line\n#]]", "#[[[#]]", "#[[[\t\n#]]"]
+
+
+def doc_shape_files():
+    """doccomments of unusual shapes (no text line at all, one line, text on the opening line, blank source lines inside)
+    in front of every documentable kind of command and as module doccomment: only acceptance is judged"""
+    cmds = ["function(f a)\nendfunction()", "macro(m)\nendmacro()", "set(V 1)", "option(O \"h\" ON)", "message(STATUS x)",
+            "add_test(NAME t COMMAND c)", "ct_add_test(NAME t)\nfunction(${t})\nendfunction()",
+            "cpp_class(K)\ncpp_end_class()"]
+    out = []
+    for d in DOC_SHAPES:
+        for c in cmds:
+            out.append((f"doccomment shape {d!r} before {c.split('(')[0]}", f"{d}\n{c}\n"))
+        out.append((f"doccomment shape {d!r} inside a class", f"cpp_class(K)\n{d}\ncpp_attr(K a v)\n{d}\ncpp_member(m K)\nfunction(\"${{m}}\" self)\nendfunction()\ncpp_end_class()\n"))
+        if d.startswith("#[[[\n") or d.startswith("#[[[ @"):
+            out.append((f"module doccomment shape {d!r}", d.replace("#[[[", "#[[[ @module", 1).replace("@module @brief x", "@module nm") + "\nset(V 1)\n"))
     return out
 
 
@@ -504,11 +527,12 @@ def run(ctx):
     for (label, text), r in zip(cf, ctx.sweep(check_file, cf, space="comment shapes", selftest=10)):
         pass
     ctx.sweep(check_file, block_files(), space="block structures x command-name case", selftest=3)
-    ctx.sweep(check_file, documented_uses(LEX if not quick else [l for l in LEX if l in CORE or l in BRA or l in QUO or l in ("[", "*values", "out[", "x**2")]),
+    ctx.sweep(check_file, documented_uses(LEX if not quick else [l for l in LEX if l in CORE or l in BRA or l in QUO or l in ("[", "*values", "out[", "x**2") or l in NUMLIKE]),
               space="documented commands x lexemes", selftest=3)
     ctx.sweep(check_file, boundary_files(), space="multi-byte characters at buffer boundaries", selftest=2)
     ctx.sweep(check_file, redefinition_files(), space="a name defined more than once", selftest=2)
     ctx.sweep(check_file, named_end_files(), space="named end commands", selftest=2)
+    ctx.sweep(check_file, doc_shape_files(), space="doccomment shapes x command kinds", selftest=2)
     ctx.sweep(check_def_params, [l for l in LEX if not l.startswith("(")], space="definition parameters x lexemes", selftest=2)
     ctx.sweep(check_file, processor_files(), space="every specially processed command name x arity x context", selftest=2)
     rp = rewrite_pairs(cmds, 3 if quick else 12)
